@@ -129,6 +129,10 @@ pub enum EOp {
     Adapted(Sk, Vec<u8>),
     /// C08: `AutoStream::new(writer, Auto)` / `auto(writer)` over Vec or Box<dyn Write>, chunked
     AutoWrite(Sk, Vec<u8>, Vec<usize>),
+    /// C08: a stream built with an *explicit* choice (`.0`: 1 AlwaysAnsi, 2 Always, 3 Never) through
+    /// `AutoStream::new(w, choice)` or the named constructor (`.1`), whatever the environment and
+    /// the process-wide choice say at that moment: Never strips, the others forward unchanged
+    ExplicitWrite(u8, bool, Vec<u8>, Vec<usize>),
     /// C08: the real `Stdout`/`Stderr` handle (fd pointed at a file for the duration) wrapped by
     /// `never` (0) / `always_ansi` (1) / `auto` (2), written chunk by chunk, converted with
     /// `.lock()` before chunk `.3` (if any); what reaches the file must equal the reference
@@ -777,6 +781,64 @@ impl World<'_> {
                 }
                 Ok(())
             }
+            EOp::ExplicitWrite(choice, named, text, lens) => {
+                if self.world_changes > 0 {
+                    self.probes_after_change += 1;
+                }
+                let chunks = crate::streams::split_by(text, lens);
+                let covered: usize = chunks.iter().map(|c| c.len()).sum();
+                let want_choice = choice_of(*choice);
+                let mut s = match (*named, want_choice) {
+                    (true, ColorChoice::Never) => AutoStream::never(Vec::new()),
+                    (true, ColorChoice::AlwaysAnsi) => AutoStream::always_ansi(Vec::new()),
+                    (true, ColorChoice::Always) => AutoStream::always(Vec::new()),
+                    _ => AutoStream::new(Vec::new(), want_choice),
+                };
+                let mode = s.current_choice();
+                for c in &chunks {
+                    let _ = s.write_all(c);
+                }
+                let _ = s.write_all(&text[covered..]);
+                let got = s.into_inner();
+                let strip = want_choice == ColorChoice::Never;
+                let want = if strip {
+                    let mut r = anstream::StripStream::new(Vec::new());
+                    for c in &chunks {
+                        let _ = r.write_all(c);
+                    }
+                    let _ = r.write_all(&text[covered..]);
+                    r.into_inner()
+                } else {
+                    text.clone()
+                };
+                self.probe(if strip { "probe_explicit_never_strips" } else { "probe_explicit_always_passes" });
+                self.hash.bytes(&got);
+                self.note(format!("AutoStream built with explicit {want_choice:?} ({}) reports {mode:?}, delivered {:?}", if *named { "named constructor" } else { "new" }, lossy(&got)));
+                let mode_ok = match want_choice {
+                    ColorChoice::Never => mode == ColorChoice::Never,
+                    ColorChoice::AlwaysAnsi => mode == ColorChoice::AlwaysAnsi,
+                    _ => mode == ColorChoice::AlwaysAnsi || mode == ColorChoice::Always,
+                };
+                if !mode_ok {
+                    return Err(EViolation {
+                        class: "wrong-mode-reported".into(),
+                        detail: format!("a stream created with the explicit choice {want_choice:?} reports {mode:?}; world: {}", self.world_str()),
+                    });
+                }
+                if got != want {
+                    return Err(EViolation {
+                        class: "explicit-mode-mismatch".into(),
+                        detail: format!(
+                            "a stream created with the explicit choice {want_choice:?} delivered {:?}, expected {} form {:?}; world: {}",
+                            lossy(&got),
+                            if strip { "the stripped" } else { "the unchanged" },
+                            lossy(&want),
+                            self.world_str()
+                        ),
+                    });
+                }
+                Ok(())
+            }
             EOp::StdWrite(is_err, mode, text, lock_at, lens) => {
                 if self.world_changes > 0 {
                     self.probes_after_change += 1;
@@ -1088,6 +1150,9 @@ pub fn gen_history(rng: &mut Rng, mode: &str) -> Vec<EOp> {
                 let lens = gen::cuts(rng, &wl, false);
                 let lock_at = if rng.chance(1, 2) { Some(rng.below(lens.len() + 1)) } else { None };
                 ops.push(EOp::StdWrite(rng.chance(1, 2), rng.below(5) as u8, wl.bytes, lock_at, lens));
+            } else if rng.chance(1, 4) {
+                let lens = gen::cuts(rng, &wl, false);
+                ops.push(EOp::ExplicitWrite(1 + rng.below(3) as u8, rng.chance(1, 3), wl.bytes, lens));
             } else if rng.chance(1, 2) {
                 ops.push(EOp::Adapted(sk, wl.bytes));
             } else {
@@ -1125,6 +1190,7 @@ fn op_json(op: &EOp) -> Value {
         EOp::GlobalRead => json!({"op": "probe_global"}),
         EOp::Sticky(s, inner) => json!({"op": "probe_sticky", "stream": sk_name(*s), "change": op_json(inner)}),
         EOp::Adapted(s, t) => json!({"op": "probe_adapted_string", "stream": sk_name(*s), "text_hex": crate::trace::hex(t)}),
+        EOp::ExplicitWrite(c, n, t, l) => json!({"op": "probe_explicit_write", "choice": c, "named_constructor": n, "text_hex": crate::trace::hex(t), "chunks": l}),
         EOp::AutoWrite(s, t, l) => json!({"op": "probe_auto_write", "stream": sk_name(*s), "text_hex": crate::trace::hex(t), "chunks": l}),
         EOp::StdWrite(e, m, t, k, l) => json!({"op": "probe_std_handle_write", "handle": if *e { "stderr" } else { "stdout" }, "mode": m, "text_hex": crate::trace::hex(t), "lock_before_chunk": k, "chunks": l}),
     }
@@ -1157,6 +1223,12 @@ fn op_from(v: &Value) -> Result<EOp, String> {
         "probe_global" => EOp::GlobalRead,
         "probe_sticky" => EOp::Sticky(sk()?, Box::new(op_from(v.get("change").ok_or("missing change")?)?)),
         "probe_adapted_string" => EOp::Adapted(sk()?, crate::trace::unhex(s("text_hex")?)?),
+        "probe_explicit_write" => EOp::ExplicitWrite(
+            v.get("choice").and_then(|x| x.as_u64()).unwrap_or(3) as u8,
+            v.get("named_constructor").and_then(|x| x.as_bool()).unwrap_or(false),
+            crate::trace::unhex(s("text_hex")?)?,
+            v.get("chunks").and_then(|x| x.as_array()).map(|a| a.iter().map(|x| x.as_u64().unwrap_or(0) as usize).collect()).unwrap_or_default(),
+        ),
         "probe_auto_write" => EOp::AutoWrite(
             sk()?,
             crate::trace::unhex(s("text_hex")?)?,
